@@ -109,6 +109,10 @@ func NoSelfAliasing(a *SearchCriteria) bool {
 //@   ensures old(criteria.ModSeq) != nil && other.ModSeq == nil ==> criteria.ModSeq == old(criteria.ModSeq)
 //@   ensures old(criteria.ModSeq) != nil && other.ModSeq != nil && old(criteria.ModSeq.MetadataName) == other.ModSeq.MetadataName && old(criteria.ModSeq.MetadataType) == other.ModSeq.MetadataType ==> criteria.ModSeq != nil && criteria.ModSeq.ModSeq >= old(criteria.ModSeq.ModSeq) && criteria.ModSeq.ModSeq >= other.ModSeq.ModSeq
 //@   ensures[C19] old(criteria.ModSeq) != nil && other.ModSeq != nil ==> criteria.ModSeq != nil && criteria.ModSeq.MetadataName == other.ModSeq.MetadataName && criteria.ModSeq.MetadataType == other.ModSeq.MetadataType && criteria.ModSeq.ModSeq >= other.ModSeq.ModSeq
+//@   ensures old(noListAliasing(criteria, other)) && len(other.Flag) > 0 ==> __base(criteria.Flag) != __base(other.Flag)
+//@   ensures old(noListAliasing(criteria, other)) && len(other.NotFlag) > 0 ==> __base(criteria.NotFlag) != __base(other.NotFlag)
+//@   ensures old(noListAliasing(criteria, other)) && len(other.Body) > 0 ==> __base(criteria.Body) != __base(other.Body)
+//@   ensures old(noListAliasing(criteria, other)) && len(other.Text) > 0 ==> __base(criteria.Text) != __base(other.Text)
 
 // ---------------------------------------------------------------------------
 // C18: capability implication rules used by the client's encoder.
